@@ -32,6 +32,8 @@ func rulesC16(c *Ctx) {
 	c.vocabProblems("R1")
 	c.ruleSigsAfterSpent("R6")
 	c.c16LimitsAreConfigured()
+	R.Rule("R10", "admin RPC figures: every field named Issued is fed by IssuedEcash only, every field named Redeemed by RedeemedEcash only (per keyset and in total)", 4)
+	c.c16ManagerFigures("R10")
 	R.Rule("R9", "the issued total counts everything that was handed out: signatures are returned only after they were saved, and a failed save is an error (shared with C06.R5 / C15.R1)", 2)
 	c.ruleSigsSavedForOutputs("R9")
 	R.Rule("R8", "the configured limits survive their own parsing: in the start-up code that builds the limits from the environment no later assignment overwrites a (sub)struct in which a limit was already stored", 1)
@@ -434,4 +436,54 @@ func (c *Ctx) c16ConfigNotOverwritten() {
 	}
 	R.Check("R8", fk, "limits parsed from the environment are not overwritten", c.P.Pos(f.Pos()), ok && len(stores) > 0,
 		"each limit stored while parsing the environment is still there when the configuration is returned", why)
+}
+
+// c16ManagerFigures: R10. The admin RPC reports issued and redeemed figures per keyset and in total. Every
+// integer stored into a field of an answer whose name says Issued comes from the mint's IssuedEcash and
+// from nothing that reads RedeemedEcash, and the reverse: the two sources have the same type and are one
+// identifier apart.
+func (c *Ctx) c16ManagerFigures(rule string) {
+	R := c.R
+	n := 0
+	for _, f := range c.P.Funcs {
+		top := EnclosingTop(f)
+		if top.Pkg == nil || c.P.Rel(top.Pkg.Pkg.Path()) != "mint/manager" || f.Blocks == nil {
+			continue
+		}
+		for _, b := range f.Blocks {
+			for _, in := range b.Instrs {
+				st, ok := in.(*ssa.Store)
+				if !ok {
+					continue
+				}
+				fa, ok := st.Addr.(*ssa.FieldAddr)
+				if !ok {
+					continue
+				}
+				name := fieldName(fa)
+				bt, isInt := st.Val.Type().Underlying().(*types.Basic)
+				if !isInt || bt.Info()&types.IsInteger == 0 {
+					continue
+				}
+				want, other := "", ""
+				switch {
+				case strings.Contains(name, "Issued"):
+					want, other = "IssuedEcash", "RedeemedEcash"
+				case strings.Contains(name, "Redeemed"):
+					want, other = "RedeemedEcash", "IssuedEcash"
+				default:
+					continue
+				}
+				for _, o := range c.CtxsOf(st) {
+					n++
+					v := o.Of(st.Val).String()
+					ok := strings.Contains(v, want) && !strings.Contains(v, other)
+					R.Check(rule, c.P.FuncKey(top), "field "+name+" is fed by "+want, c.P.InstrPos(st), ok, "a figure reported as "+strings.ToLower(strings.TrimSuffix(want, "Ecash"))+" derives from the mint's "+want+" only", "value: "+short(v, 200))
+				}
+			}
+		}
+	}
+	if n < 4 {
+		R.Unresolved(rule, "issued / redeemed fields of the admin answers", fmt.Sprintf("%d stores found, at least 4 on the reference tree", n))
+	}
 }
